@@ -16,3 +16,24 @@ def runLoop (f : String → String) : IO UInt32 := do
   return 0
 
 end TypifyModel.Driver
+
+namespace TypifyModel.Driver
+
+partial def loopS {σ : Type} (h : IO.FS.Stream) (out : IO.FS.Stream) (f : σ → String → σ × String) (st : σ) : IO Unit := do
+  let line ← h.getLine
+  if line.isEmpty then return ()
+  let l := line.trimAscii.toString
+  if l.isEmpty then loopS h out f st
+  else
+    let (st', ans) := f st l
+    out.putStrLn ans
+    loopS h out f st'
+
+/-- stateful variant: the handler threads a state through the lines -/
+def runLoopS {σ : Type} (init : σ) (f : σ → String → σ × String) : IO UInt32 := do
+  let out ← IO.getStdout
+  loopS (← IO.getStdin) out f init
+  out.flush
+  return 0
+
+end TypifyModel.Driver
